@@ -12,6 +12,7 @@ that has opened an inode keeps reading that inode.  The `write` of the number is
 assumed atomic (an incomplete prefix may be visible).
 -/
 import BBProofs.Monitor
+import BBProofs.GenEq7
 
 namespace BB.Mon
 
@@ -121,5 +122,52 @@ example : run .rename [3, 5]
 /-- Before the first rename the reader returns `None`. -/
 example : run .rename [3] [true, true, true, false, true, false, false, false, false]
     = [.done none, .done (some 3)] := by decide
+
+
+/-! ### the code: the body of the daemon's loop as translated from `/repo` on this run (`BBGen.monitor_rss_process_loop`) -/
+
+open BB in
+/-- THE WRITER OF THE CODE IS THE MODEL'S WRITER.  The generated loop body, iterated from the generated initial maximum
+over any finite sequence of iterations with non-negative float samples `ss`, does on `max-rss.txt` / `max-rss.txt.tmp`
+exactly `writerOps .rename` (of the samples' ranks: the model's values are abstract naturals). -/
+theorem C20_code_writer (expf : Rat → Rat) (st iv bg : PV) (parent : String)
+    (its : List (PV × PV)) (ss : List Rat)
+    (hs : List.Forall₂ (fun it s => PV.mul it.1 bg = PV.flt (some s)) its ss) (hpos : ∀ s ∈ ss, 0 ≤ s) :
+    decodeEff (keyOf (rank (0 :: ss))) parent
+        (monitorRun expf st iv bg (PV.str parent) (BBGen.monitor_rss_process_loop_init.headD PV.pynone) its)
+      = writerOps .rename (ss.map (rank (0 :: ss))) :=
+  gen_monitor_writer expf st iv bg parent its ss hs hpos
+
+open BB in
+/-- … hence every reader interleaved in any way with the file effects OF THE CODE returns no value or a complete value
+that was written: never an error, never a truncated number. -/
+theorem C20_code_reader (expf : Rat → Rat) (st iv bg : PV) (parent : String)
+    (its : List (PV × PV)) (ss : List Rat)
+    (hs : List.Forall₂ (fun it s => PV.mul it.1 bg = PV.flt (some s)) its ss) (hpos : ∀ s ∈ ss, 0 ≤ s)
+    (sched : List Bool) :
+    ∀ r ∈ (({ ops := decodeEff (keyOf (rank (0 :: ss))) parent
+                (monitorRun expf st iv bg (PV.str parent) (BBGen.monitor_rss_process_loop_init.headD PV.pynone) its) } : St).exec
+              sched).out,
+      r = .done none ∨ ∃ v, r = .done (some v) ∧ v ∈ ss.map (rank (0 :: ss)) := by
+  rw [C20_code_writer expf st iv bg parent its ss hs hpos]
+  exact C20_reader (ss.map (rank (0 :: ss))) sched
+
+open BB in
+/-- one iteration whose sample does not exceed the running maximum (or is NaN) touches neither peak-file name -/
+theorem C20_code_keep (expf : Rat → Rat) (m : Rat) (s : Option Rat) (st iv bg clk raw : PV) (parent : String) (k : PV → Nat)
+    (hs : PV.mul raw bg = PV.flt s) (h : ∀ x, s = some x → x ≤ m) :
+    decodeEff k parent
+      (BBGen.monitor_rss_process_loop expf (PV.flt (some m)) st iv bg (PV.str parent) clk raw).dropLast = [] := by
+  rw [gen_monitor_loop_keep expf m s st iv bg clk raw parent hs h, List.dropLast_concat]
+  simpa [decodeEff] using decode_csv k parent (PV.flt s) (PV.sub clk st) []
+
+open BB in
+/-- premises satisfiable, conclusion non-trivial: three iterations with samples 3.0, 2.0, 5.0 — two updates -/
+example : decodeEff (keyOf (rank [0, 3, 2, 5])) "d"
+    (monitorRun (fun x => x) (PV.flt (some 0)) (PV.flt (some 1)) (PV.flt (some 1)) (PV.str "d")
+      (BBGen.monitor_rss_process_loop_init.headD PV.pynone)
+      [(PV.flt (some 3), PV.flt (some 1)), (PV.flt (some 2), PV.flt (some 2)), (PV.flt (some 5), PV.flt (some 3))])
+    = [.openTmp, .writePartial, .writeFull 2, .renameTmp, .openTmp, .writePartial, .writeFull 3, .renameTmp] := by
+  decide +kernel
 
 end BB.Mon
